@@ -99,7 +99,29 @@ pub fn g() -> &'static G {
     })
 }
 
+/// Marks a worker as gone when its thread ends without having reported `WorkerExit` (it
+/// panicked): thread-local destructors run on every kind of thread exit.
+struct ExitGuard;
+
+impl Drop for ExitGuard {
+    fn drop(&mut self) {
+        let gl = g();
+        let Ok(mut st) = gl.m.lock() else { return };
+        let tid = std::thread::current().id();
+        if let Some(i) = st.wk.iter().position(|w| w.tid == tid) {
+            if !matches!(st.wk[i].state, WState::Exited(_)) {
+                st.wk[i].state = WState::Exited(false);
+                if st.mode != Mode::Kill {
+                    st.lines.push("ev exit panicked".to_string());
+                }
+                gl.cv.notify_all();
+            }
+        }
+    }
+}
+
 thread_local! {
+    static EXIT_GUARD: std::cell::RefCell<Option<ExitGuard>> = const { std::cell::RefCell::new(None) };
     /// number of chunk-file events (create/write/sync/trunc/unlink) issued by this thread
     static TL_EVENTS: Cell<u64> = const { Cell::new(0) };
     /// set while harness-internal code runs on this thread: hooks pass through
@@ -279,6 +301,7 @@ pub fn on_event(ev: &raft_log::verif_hooks::VerifEvent) {
             if let Some(i) = st.wk.iter().position(|w| w.tid == tid) {
                 st.wk[i].state = WState::AtRecv;
             } else {
+                let _ = EXIT_GUARD.try_with(|c| *c.borrow_mut() = Some(ExitGuard));
                 let generation = st.generation;
                 st.wk.push(Wk {
                     tid,
